@@ -254,6 +254,7 @@ pub fn kv_run(backend: &str, ops: &[Value]) -> Vec<String> {
                 Ok(d) => hex::encode(d),
                 Err(_) => "err".to_string(),
             },
+            "dump" => dump_backend(backend, &path),
             "l" => match ad.read().unwrap().list_objects(o[1].as_str().unwrap()) {
                 Ok(mut v) => {
                     v.sort();
@@ -289,6 +290,51 @@ pub fn kv_run(backend: &str, ops: &[Value]) -> Vec<String> {
     out
 }
 
+/// the raw layout behind a persistent backend: relative paths (directory) or table rows (SQLite),
+/// with contents when the backend is not wrapped in a compression codec
+fn dump_backend(backend: &str, path: &str) -> String {
+    let wrapped = backend.contains('+');
+    if backend.starts_with("fs") {
+        let mut v: Vec<Value> = vec![];
+        if let Ok(rd) = std::fs::read_dir(path) {
+            for d in rd.flatten() {
+                if let Ok(sub) = std::fs::read_dir(d.path()) {
+                    for f in sub.flatten() {
+                        let rel = format!("{}/{}", d.file_name().to_string_lossy(), f.file_name().to_string_lossy());
+                        if wrapped {
+                            v.push(json!([rel]));
+                        } else {
+                            v.push(json!([rel, hex::encode(std::fs::read(f.path()).unwrap_or_default())]));
+                        }
+                    }
+                }
+            }
+        }
+        v.sort_by_key(|x| x[0].as_str().unwrap().to_string());
+        js(&Value::from(v))
+    } else if backend.starts_with("sqlite") && !backend.starts_with("sqlitemem") {
+        let mut v: Vec<Value> = vec![];
+        if let Ok(cn) = rusqlite::Connection::open(path) {
+            if let Ok(mut st) = cn.prepare("SELECT key, value FROM entries") {
+                let rows = st.query_map([], |r| Ok((r.get::<_, String>(0)?, r.get::<_, String>(1)?)));
+                if let Ok(rows) = rows {
+                    for (k, val) in rows.flatten() {
+                        if wrapped {
+                            v.push(json!([k]));
+                        } else {
+                            v.push(json!([k, val]));
+                        }
+                    }
+                }
+            }
+        }
+        v.sort_by_key(|x| x[0].as_str().unwrap().to_string());
+        js(&Value::from(v))
+    } else {
+        "[]".to_string()
+    }
+}
+
 /// the write-once key/value contract, evaluated by the harness itself
 pub fn kv_spec(ops: &[Value]) -> Vec<String> {
     let mut m: std::collections::BTreeMap<String, Vec<u8>> = Default::default();
@@ -314,6 +360,7 @@ pub fn kv_spec(ops: &[Value]) -> Vec<String> {
                 js(&json!(v))
             }
             "reopen" => "ok".to_string(),
+            "dump" => "*".to_string(),
             _ => "bad".to_string(),
         });
     }
@@ -376,6 +423,7 @@ fn gen_kv_ops(r: &mut Rng, odd_keys: bool) -> Vec<Value> {
     }
     ops.push(json!(["l", ".delta"]));
     ops.push(json!(["l", ""]));
+    ops.push(json!(["dump"]));
     ops.push(json!(["reopen"]));
     ops.push(json!(["l", ".pack"]));
     for k in keys.iter().take(3) {
@@ -823,6 +871,9 @@ pub fn oracle(req: &Value) -> Vec<(String, String)> {
             let got = kv_run(a[1].as_str().unwrap(), ops);
             let want = kv_spec(ops);
             for (i, (g, w)) in got.iter().zip(want.iter()).enumerate() {
+                if w == "*" {
+                    continue; // the raw layout is compared with the backend model, not with the contract
+                }
                 if g != w {
                     fails.push(("C17".into(), format!("backend {} violates the write-once contract at operation {} {}: got {} expected {}", a[1], i, ops[i], g, w)));
                     break;
